@@ -30,14 +30,14 @@ contract(Q + 'Database.__init__', 'C13', verify=False,
                             'and self.individualMap is None and self.excludedData == 0'})
 
 _NATIVE = """
-# replay on the real code: the bounded stand-in restricted to the catalogue tables and short sequences
-import json, subprocess, sys, os
-env = dict(os.environ)
-r = subprocess.run([sys.executable, '/verif/bounded/c13_native.py', 'replay', '0'], capture_output=True, text=True, env=env)
-d = json.loads((r.stdout.strip().splitlines() or ['{}'])[-1])
-bad = [f for f in d.get('failures', []) if f['clause'].startswith(CLAUSE)]
+# replay on the real code: the bounded stand-in (row-level oracle) restricted to the catalogue tables and short
+# operation sequences; reproduces when the oracle disagrees with the real function on one of them
+import sys
+sys.path.insert(0, '/verif/bounded')
+import c13_native
+n, bad = c13_native.replay(CLAUSE)
 violated = bool(bad)
-detail = f"{d.get('cases')} native cases; first mismatch: {bad[0]['detail'] if bad else None}"
+detail = f"{n} native cases; first mismatch: {bad[0] if bad else None}"
 """
 
 # ---------------------------------------------------------------------------------------------
@@ -110,7 +110,9 @@ contract(Q + 'Database.split', 'C13',
          },
          invariants={1: {'clauses': {
              'lens': 'len(estimation_sets) == _k and len(validation_sets) == _k',
-             'allocated': 'forall(lambda q: c13_allocated(estimation_sets[q]), 0, _k)',
+             # the frames collected so far are existing objects, distinct from the two lists that grow
+             'allocated': 'forall(lambda q: c13_allocated(estimation_sets[q]) and estimation_sets[q] is not estimation_sets '
+                          'and estimation_sets[q] is not validation_sets, 0, _k)',
              'val': 'forall(lambda q: same(validation_sets[q], the_slices[q]), 0, _k)',
              'est_n': 'forall(lambda q: c13_nparts(estimation_sets[q]) == len(the_slices) - 1, 0, _k)',
              'est': 'forall(lambda q: forall(lambda j: same(c13_part(estimation_sets[q], j), '
